@@ -196,6 +196,13 @@ func (w *WaterMark) tryAdvance() {
 		if win.slots[offset].Load() > 0 {
 			return
 		}
+		// A Begin at the index the mark has already reached (a reader that starts
+		// at the current snapshot after the earlier readers of it finished) is
+		// counted in its slot like any other: do not move past it while it is
+		// pending, or its holder loses the protection the mark stands for.
+		if doneUntil >= win.base && win.slots[doneUntil-win.base].Load() > 0 {
+			return
+		}
 		verifhook.Yield(win, "wm.adv.slot-zero")
 		if atomic.CompareAndSwapUint64(&w.doneUntil, doneUntil, next) {
 			verifhook.Yield(w, "wm.adv.advanced")
@@ -243,7 +250,11 @@ func (w *WaterMark) ensureWindow(index uint64) *watermarkWindow {
 func (w *WaterMark) rebuildWindowLocked(index uint64, win *watermarkWindow) {
 	done := w.DoneUntil()
 	verifhook.Yield(w, "wm.rebuild.done-loaded")
-	newBase := done + 1
+	// Keep the slot of the mark itself: it can hold late Begins (see tryAdvance).
+	newBase := done
+	if newBase == 0 {
+		newBase = 1
+	}
 	if index < newBase {
 		index = newBase
 	}
